@@ -71,7 +71,7 @@ Proof.
     rewrite forallb_forall. intros c Hc. apply existsb_exists. exists c. split; [apply in_or_app; right; exact Hc | apply Ascii.eqb_eq; reflexivity].
 Qed.
 
-Definition float_alpha : list ascii := chars ".e-" ++ dchars false (seq 0 10).
+Definition float_alpha : list ascii := chars ".eE-" ++ dchars false (seq 0 10).
 
 Definition fdigits_ok (ds : list nat) : bool := forallb (fun d => d <? 10) ds.
 
@@ -84,7 +84,7 @@ Proof.
     unfold float_alpha. apply in_or_app. right. exact Hc.
 Qed.
 
-Definition ex_ok (ex : option (bool * list nat)) : bool :=
+Definition ex_ok (ex : option ((bool * bool) * list nat)) : bool :=
   match ex with Some (_, ds) => match ds with [] => false | _ => fdigits_ok ds end | None => true end.
 
 Lemma float_body_over ip fp ex :
@@ -94,11 +94,11 @@ Proof.
   apply andb_true_iff. split.
   - destruct fp as [|f fp']; [reflexivity|]. change (c_dot :: render_digits false (f :: fp')) with ([c_dot] ++ render_digits false (f :: fp')).
     rewrite over_app, (fdigits_over _ Hf). reflexivity.
-  - destruct ex as [[neg ds]|]; [|reflexivity]. cbn [ex_ok] in He.
+  - destruct ex as [[[neg eup] ds]|]; [|reflexivity]. cbn [ex_ok] in He.
     assert (Hd : fdigits_ok ds = true) by (destruct ds; [discriminate | exact He]).
-    change ("e"%char :: (if neg then ["-"%char] else []) ++ render_digits false ds)
-      with (["e"%char] ++ (if neg then ["-"%char] else []) ++ render_digits false ds).
-    rewrite !over_app, (fdigits_over _ Hd). destruct neg; reflexivity.
+    change ((if eup then "E"%char else "e"%char) :: (if neg then ["-"%char] else []) ++ render_digits false ds)
+      with ([if eup then "E"%char else "e"%char] ++ (if neg then ["-"%char] else []) ++ render_digits false ds).
+    rewrite !over_app, (fdigits_over _ Hd). destruct neg, eup; reflexivity.
 Qed.
 
 (* ------------------------------------------------------------------ int(text, 0) *)
@@ -161,6 +161,12 @@ Proof.
     apply int_prefixed_groups; [cbn; lia | exact Hg].
   - change (py_int0 (prefix_of RBin ++ render_groups up gs)) with (int_prefixed 2 (render_groups up gs)).
     apply int_prefixed_groups; [cbn; lia | exact Hg].
+  - change (py_int0 (prefix_of RHexU ++ render_groups up gs)) with (int_prefixed 16 (render_groups up gs)).
+    apply int_prefixed_groups; [cbn; lia | exact Hg].
+  - change (py_int0 (prefix_of ROctU ++ render_groups up gs)) with (int_prefixed 8 (render_groups up gs)).
+    apply int_prefixed_groups; [cbn; lia | exact Hg].
+  - change (py_int0 (prefix_of RBinU ++ render_groups up gs)) with (int_prefixed 2 (render_groups up gs)).
+    apply int_prefixed_groups; [cbn; lia | exact Hg].
 Qed.
 
 (* ------------------------------------------------------------------ float(text) *)
@@ -170,17 +176,21 @@ Proof. intros H. do 10 (destruct d as [|d]; [split; reflexivity|]). lia. Qed.
 
 Definition nonempty {A} (l : list A) : bool := match l with [] => false | _ => true end.
 
-Definition exp_chars (ex : option (bool * list nat)) : list ascii :=
-  match ex with None => [] | Some (neg, ds) => "e"%char :: (if neg then ["-"%char] else []) ++ render_digits false ds end.
+Definition exp_chars (ex : option ((bool * bool) * list nat)) : list ascii :=
+  match ex with
+  | None => []
+  | Some ((neg, eup), ds) => (if eup then "E"%char else "e"%char) :: (if neg then ["-"%char] else []) ++ render_digits false ds
+  end.
 
 Lemma float_exp_part_ok m e0 ex :
   ex_ok ex = true -> float_exp_part m e0 (exp_chars ex) = Some (m, (e0 + exp_val ex)%Z).
 Proof.
   intros He. assert (L10 : 10 <= 16) by lia.
-  destruct ex as [[neg ds]|]; [|cbn [exp_chars float_exp_part exp_val]; rewrite Z.add_0_r; reflexivity].
+  destruct ex as [[[neg eup] ds]|]; [|cbn [exp_chars float_exp_part exp_val]; rewrite Z.add_0_r; reflexivity].
   cbn [ex_ok] in He. destruct ds as [|d ds]; [discriminate|].
   assert (Hd : d < 10). { cbn [fdigits_ok forallb] in He. apply andb_prop in He. destruct He as [He _]. apply Nat.ltb_lt. exact He. }
-  cbn [exp_chars float_exp_part]. change (is_one_of "e"%char "e"%char "E"%char) with true. cbv iota.
+  cbn [exp_chars float_exp_part].
+  replace (is_one_of (if eup then "E"%char else "e"%char) "e"%char "E"%char) with true by (destruct eup; reflexivity). cbv iota.
   destruct neg.
   - cbn [app float_sign_part]. change (Ascii.eqb "-"%char "-"%char) with true. cbv iota.
     rewrite <- (app_nil_r (render_digits false (d :: ds))).
@@ -192,10 +202,10 @@ Proof.
 Qed.
 
 Lemma stops_exp ex : stops 10 (exp_chars ex).
-Proof. destruct ex as [[neg ds]|]; cbn [exp_chars stops]; [split; reflexivity | exact I]. Qed.
+Proof. destruct ex as [[[neg eup] ds]|]; cbn [exp_chars stops]; [destruct eup; split; reflexivity | exact I]. Qed.
 
 Lemma float_frac_exp ex : float_frac_part (exp_chars ex) = ([], exp_chars ex).
-Proof. destruct ex as [[neg ds]|]; reflexivity. Qed.
+Proof. destruct ex as [[[neg [|]] ds]|]; reflexivity. Qed.
 
 Lemma py_float_body ip fp ex :
   fdigits_ok ip = true -> nonempty ip = true -> fdigits_ok fp = true -> ex_ok ex = true ->
@@ -290,6 +300,10 @@ Proof.
       - replace (if pq then code_int_prefixed body else is_hex_prefixed body) with true by (destruct pq; reflexivity).
         apply orb_true_r.
       - rewrite (ts_int_path_over _ body Hover) by (destruct up; reflexivity). reflexivity.
+      - rewrite (ts_int_path_over _ body Hover) by (destruct up; reflexivity). reflexivity.
+      - replace (if pq then code_int_prefixed body else is_hex_prefixed body) with true by (destruct pq; reflexivity).
+        apply orb_true_r.
+      - rewrite (ts_int_path_over _ body Hover) by (destruct up; reflexivity). reflexivity.
       - rewrite (ts_int_path_over _ body Hover) by (destruct up; reflexivity). reflexivity. }
     rewrite P. unfold body. rewrite (py_int0_body r up gs Hg Hz). reflexivity. }
   unfold ts_sfx_ok in Hs. apply orb_true_iff in Hs. destruct Hs as [Hs|Hs].
@@ -311,7 +325,7 @@ Proof.
   rewrite (N _ H1), (N _ H2). apply andb_false_r.
 Qed.
 
-Definition float_shape (fp : list nat) (ex : option (bool * list nat)) : bool :=
+Definition float_shape (fp : list nat) (ex : option ((bool * bool) * list nat)) : bool :=
   match fp, ex with [], None => false | _, _ => true end.
 
 Lemma code_int_prefixed_over al s :
@@ -344,9 +358,10 @@ Proof.
   rewrite T.
   assert (P : ts_int_path (float_body ip fp ex) = false).
   { rewrite ts_int_path_eq. unfold float_body. destruct fp as [|f fp'].
-    - destruct ex as [[neg ds]|]; [|discriminate]. cbn [app].
+    - destruct ex as [[[neg eup] ds]|]; [|discriminate]. cbn [app].
       apply andb_false_iff. right. apply negb_false_iff. rewrite existsb_app. cbn [existsb].
-      change (Ascii.eqb "e"%char (lower_char "e"%char)) with true. cbn [orb]. apply orb_true_r.
+      replace (Ascii.eqb "e"%char (lower_char (if eup then "E"%char else "e"%char))) with true by (destruct eup; reflexivity).
+      cbn [orb]. apply orb_true_r.
     - apply andb_false_iff. left. apply negb_false_iff. rewrite !existsb_app. cbn [existsb].
       change (Ascii.eqb c_dot c_dot) with true. cbn [orb]. apply orb_true_r. }
   rewrite P. cbn [orb].
@@ -549,13 +564,15 @@ Definition rs_int_sfx_table (r : radix) : list string :=
   match r with RDec => int_suffixes ++ float_suffixes | _ => int_suffixes end.
 
 (* extract_total (Rust, integers), for the property's suffix selection; rs_extract_code carries it to the source's *)
+Definition rs_radix_ok (r : radix) : bool := match r with RHexU | ROctU | RBinU => false | _ => true end.
+
 Lemma rs_extract_int r up gs sfx us s :
-  groups_ok (base_of r) gs = true -> dec_ok r gs = true ->
+  rs_radix_ok r = true -> groups_ok (base_of r) gs = true -> dec_ok r gs = true ->
   sfx_split sfx (rs_int_sfx_table r) = Some (us, s) ->
   rs_extract false "integer_literal" (lit_chars (LInt r gs up sfx))
   = Some (digits_val (Z.of_nat (base_of r)) 0 (List.concat gs), 0%Z).
 Proof.
-  intros Hg Hz Hs. unfold lit_chars. cbn [lit_body lit_suffix].
+  intros Hr Hg Hz Hs. unfold lit_chars. cbn [lit_body lit_suffix].
   destruct (sfx_split_chars _ _ _ _ Hs) as [Ec Hin]. rewrite Ec.
   set (body := prefix_of r ++ render_groups up gs).
   set (tail := (if us then [c_us] else []) ++ chars s).
@@ -573,10 +590,10 @@ Proof.
     - destruct r; try reflexivity. cbn [dec_ok List.concat] in *. rewrite app_nil_r. exact Hz. }
   unfold rs_extract. rewrite rs_float_type_fact. change (String.eqb "integer_literal" "float_literal") with false. cbv iota.
   assert (HinAll : s = "" \/ In s (int_suffixes ++ float_suffixes)).
-  { destruct Hin as [->|Hin]; [left; reflexivity | right]. destruct r; cbn [rs_int_sfx_table] in Hin; [exact Hin | | | ]; apply in_or_app; left; exact Hin. }
+  { destruct Hin as [->|Hin]; [left; reflexivity | right]. destruct r; try discriminate; cbn [rs_int_sfx_table] in Hin; [exact Hin | | | ]; apply in_or_app; left; exact Hin. }
   assert (STRIP : strip_suffix (rs_suffix_table false (body ++ tail)) (body ++ tail) = body ++ (if us then [c_us] else [])).
   { unfold tail. unfold rs_suffix_table. rewrite rs_suffixes_fact.
-    destruct r.
+    destruct r; try discriminate.
     - assert (NP : is_prefixed (body ++ (if us then [c_us] else []) ++ chars s) = false).
       { apply (is_prefixed_over (int_alpha RDec up (seq 0 10) ++ suffix_alpha)).
         - rewrite over_app. apply andb_true_iff. split.
